@@ -252,6 +252,10 @@ func genArg(t *rapid.T, keys *[]string) string {
 	if pick(t, "bare", 10) == 9 {
 		return key
 	}
+	if reused && pick(t, "nilish", 12) == 11 {
+		// a value without data for a key that has data: it still is a value (only key= is ignored)
+		return key + "=" + pad(t, oneOf(t, "nilvalue", []string{"null", "[]", "{}", "[ ]", "{ }", "[null]", "{a: null}", "{a: []}", "\"\"", "''"}))
+	}
 	return key + "=" + genValue(t, reused && pick(t, "containers", 4) != 0)
 }
 
@@ -264,6 +268,12 @@ func genKV(t *rapid.T) KVCase {
 	n := 1 + pick(t, "nargs", 8)
 	var keys []string
 	for i := 0; i < n; i++ {
+		// the same argument once more, verbatim: "merged in order" differs from "every setting once"
+		// when something in between overrode it, or under an accumulating policy
+		if i > 0 && pick(t, "verbatim", 8) == 7 {
+			c.Args = append(c.Args, c.Args[pick(t, "which", i)])
+			continue
+		}
 		c.Args = append(c.Args, genArg(t, &keys))
 	}
 	return c
@@ -279,6 +289,12 @@ func genCollector(t *rapid.T) ColCase {
 	for i := 0; i < n; i++ {
 		var s ColStep
 		k := pick(t, "kind", 20) // 17: neither, 18: config and error, 19: error only, else a config
+		if i > 0 && k < 17 && pick(t, "same", 6) == 5 {
+			// the config object of an earlier step once more
+			s.Same = 1 + pick(t, "which", i)
+			c.Steps = append(c.Steps, s)
+			continue
+		}
 		if k != 17 && k != 19 {
 			if pick(t, "toplist", 8) == 7 {
 				s.Cfg = gen.GenList(t, cfg, 2)
@@ -332,12 +348,56 @@ func yamlText(tr *gen.Tree) string {
 	return b.String()
 }
 
+// genContent draws the text of a file that will mostly be read by the given loader.
+func genContent(t *rapid.T, cfg *gen.TreeCfg, loader string) (content string, missing bool) {
+	switch k := pick(t, "content", 32); {
+	case k == 29:
+		return "", true
+	case k == 28:
+		return oneOf(t, "bad", []string{"", "{", "[1,", "a: [", "42", "{\"a\": }", "a: 1\n b: 2\n", "\t"}), false
+	case k == 27:
+		s := jsonText(gen.GenObj(t, cfg, 2))
+		return s[:rapid.IntRange(0, len(s)).Draw(t, "cut")], false
+	case k >= 30: // documents without data
+		return oneOf(t, "nilish", []string{"null", "{}", "[]", "~", "---\n", "# nothing\n", "{\"a\": null}", "{\"a\": []}", "{\"a\": {}}", "[null]", " \n"}), false
+	case k < 12 && (loader != "json" || k == 0):
+		return yamlText(gen.GenObj(t, cfg, 2)), false
+	case k >= 25:
+		return jsonText(gen.GenList(t, cfg, 2)), false
+	default:
+		return jsonText(gen.GenObj(t, cfg, 2)), false
+	}
+}
+
+var spellings = []string{"dot", "slash", "updown", "rel", "symlink", "hardlink", "dirlink"}
+
 func genFiles(t *rapid.T) FilesCase {
 	c := FilesCase{Opts: genOpts(t), Init: genInit(t)}
 	c.Exts = append([]ExtEntry{}, extTables[pick(t, "table", len(extTables)+3)%len(extTables)]...) // the first three tables twice
+	if pick(t, "via", 5) == 4 {
+		c.Via = "flagset"
+		c.Named = pick(t, "named", 2) == 1
+	}
 	cfg := &gen.TreeCfg{Depth: 2, Width: 3, Keys: initKeys, NoFloat: true}
 	n := 1 + pick(t, "files", 5)
+	loaders := make([]string, 0, n)
 	for i := 0; i < n; i++ {
+		var f FileArg
+		if pick(t, "spelled", 8) >= 5 {
+			f.Spell = oneOf(t, "spell", spellings)
+		}
+		// name an earlier file again: the same argument twice is where "merged in order" differs from "merged once"
+		if i > 0 && pick(t, "again", 10) >= 6 {
+			f.Again = 1 + pick(t, "which", i)
+			loader := loaders[f.Again-1]
+			loaders = append(loaders, loader)
+			if c.Via == "" && pick(t, "rewrite", 4) == 3 {
+				f.Rewrite = true
+				f.Content, _ = genContent(t, cfg, loader)
+			}
+			c.Files = append(c.Files, f)
+			continue
+		}
 		// mostly an extension the table knows, and content its loader can read
 		ext := oneOf(t, "ext", fileExts)
 		if len(c.Exts) > 0 && pick(t, "known", 10) < 6 {
@@ -349,21 +409,14 @@ func genFiles(t *rapid.T) FilesCase {
 				loader = e.Loader
 			}
 		}
-		f := FileArg{Name: fmt.Sprintf("%d-%s%s", i, oneOf(t, "base", fileBases), ext)}
-		switch k := pick(t, "content", 30); {
-		case k == 29:
-			f.Missing = true
-		case k == 28:
-			f.Content = oneOf(t, "bad", []string{"", "{", "[1,", "a: [", "42", "{\"a\": }", "a: 1\n b: 2\n", "\t"})
-		case k == 27:
-			s := jsonText(gen.GenObj(t, cfg, 2))
-			f.Content = s[:rapid.IntRange(0, len(s)).Draw(t, "cut")]
-		case k < 12 && (loader != "json" || k == 0):
-			f.Content = yamlText(gen.GenObj(t, cfg, 2))
-		case k >= 25:
-			f.Content = jsonText(gen.GenList(t, cfg, 2))
-		default:
-			f.Content = jsonText(gen.GenObj(t, cfg, 2))
+		loaders = append(loaders, loader)
+		f.Name = fmt.Sprintf("%d-%s%s", i, oneOf(t, "base", fileBases), ext)
+		f.Content, f.Missing = genContent(t, cfg, loader)
+		if i > 0 && pick(t, "copy", 10) == 9 {
+			// another file with the content of an earlier one
+			if src := c.Files[c.target(pick(t, "of", i))]; !src.Missing {
+				f.Content, f.Missing = src.Content, false
+			}
 		}
 		c.Files = append(c.Files, f)
 	}
